@@ -1,0 +1,194 @@
+//! Verification hooks (cargo feature `verif`, off by default).
+//!
+//! Nothing in this module changes the behaviour of the engine: it lets an external harness
+//! observe the linearization points of the runtime (one event per protocol step), perturb the
+//! schedule at those points and replace the wall clock of the time based window managers.
+//!
+//! Events are `serde_json::Value` objects. Every event gets a process-wide sequence number that
+//! is taken under one mutex; the observer is called while that mutex is held, so the order in
+//! which the observer sees the events is the order of the sequence numbers. A second callback
+//! (`after`) runs in the emitting thread *after* the mutex has been released and may block: the
+//! harness uses it for seeded schedule perturbation and for lock-step gates.
+
+use std::any::{Any, TypeId};
+use std::cell::Cell;
+use std::collections::HashMap;
+use std::sync::atomic::{AtomicBool, AtomicU64, Ordering};
+use std::sync::{Arc, Mutex, RwLock};
+use std::time::{Duration, Instant};
+
+use once_cell::sync::Lazy;
+use serde::Serialize;
+use serde_json::{json, Value};
+
+use crate::network::{Coord, NetworkMessage, ReceiverEndpoint};
+use crate::operator::StreamElement;
+
+/// Called with the sequencer mutex held: `(sequence number, event)`.
+pub type Observer = Arc<dyn Fn(u64, &Value) + Send + Sync>;
+/// Called after the sequencer mutex has been released; may block.
+pub type After = Arc<dyn Fn(&Value) + Send + Sync>;
+
+static ENABLED: AtomicBool = AtomicBool::new(false);
+static SEQ: Lazy<Mutex<(u64, Option<Observer>)>> = Lazy::new(|| Mutex::new((0, None)));
+static AFTER: Lazy<RwLock<Option<After>>> = Lazy::new(|| RwLock::new(None));
+static NEXT_THREAD: AtomicU64 = AtomicU64::new(1);
+
+thread_local! {
+    static THREAD: Cell<u64> = const { Cell::new(0) };
+    static IN_BATCHER: Cell<bool> = const { Cell::new(false) };
+    static MOCK_CLOCK: Cell<Option<Duration>> = const { Cell::new(None) };
+}
+
+/// Install (or remove) the observer and the after-callback. Resets the sequence number.
+pub fn install(observer: Option<Observer>, after: Option<After>) {
+    let mut seq = SEQ.lock().unwrap();
+    seq.0 = 0;
+    ENABLED.store(observer.is_some() || after.is_some(), Ordering::SeqCst);
+    seq.1 = observer;
+    *AFTER.write().unwrap() = after;
+}
+
+/// Whether some callback is installed.
+#[inline]
+pub fn enabled() -> bool {
+    ENABLED.load(Ordering::Relaxed)
+}
+
+/// A small integer identifying the calling thread.
+pub fn thread_id() -> u64 {
+    THREAD.with(|t| {
+        if t.get() == 0 {
+            t.set(NEXT_THREAD.fetch_add(1, Ordering::Relaxed));
+        }
+        t.get()
+    })
+}
+
+/// Emit an event; `build` runs only when a callback is installed.
+#[inline]
+pub fn emit(build: impl FnOnce() -> Value) {
+    if !enabled() {
+        return;
+    }
+    emit_slow(build());
+}
+
+#[inline(never)]
+fn emit_slow(mut ev: Value) {
+    if let Some(obj) = ev.as_object_mut() {
+        obj.insert("th".into(), json!(thread_id()));
+    }
+    {
+        let mut seq = SEQ.lock().unwrap();
+        seq.0 += 1;
+        let n = seq.0;
+        if let Some(obs) = seq.1.as_ref() {
+            obs(n, &ev);
+        }
+    }
+    let after = AFTER.read().unwrap().clone();
+    if let Some(after) = after {
+        after(&ev);
+    }
+}
+
+/// `"b.h.r"`
+pub fn coord_str(c: Coord) -> String {
+    format!("{}.{}.{}", c.block_id, c.host_id, c.replica_id)
+}
+
+/// `"b.h.r<p"`
+pub fn endpoint_str(e: ReceiverEndpoint) -> String {
+    format!("{}<{}", coord_str(e.coord), e.prev_block_id)
+}
+
+/// JSON projection of a stream element: `{k, v?, ts?}` with `k` in `I T W B R X`.
+pub fn element<T: Serialize>(e: &StreamElement<T>) -> Value {
+    let val = |v: &T| serde_json::to_value(v).unwrap_or(Value::Null);
+    match e {
+        StreamElement::Item(v) => json!({"k": "I", "v": val(v)}),
+        StreamElement::Timestamped(v, ts) => json!({"k": "T", "v": val(v), "ts": ts}),
+        StreamElement::Watermark(ts) => json!({"k": "W", "ts": ts}),
+        StreamElement::FlushBatch => json!({"k": "B"}),
+        StreamElement::FlushAndRestart => json!({"k": "R"}),
+        StreamElement::Terminate => json!({"k": "X"}),
+    }
+}
+
+/// JSON projection of a whole batch: `(sender, elements)`.
+pub fn message<T: Serialize + Clone>(m: &NetworkMessage<T>) -> (String, Value) {
+    let els: Vec<Value> = m.clone().into_iter().map(|e| element(&e)).collect();
+    (coord_str(m.sender()), Value::Array(els))
+}
+
+type Projector = fn(&dyn Any) -> Option<(String, Value)>;
+static PROJECTORS: Lazy<RwLock<HashMap<TypeId, Projector>>> =
+    Lazy::new(|| RwLock::new(HashMap::new()));
+
+fn project_impl<T: Serialize + Clone + 'static>(a: &dyn Any) -> Option<(String, Value)> {
+    a.downcast_ref::<NetworkMessage<T>>().map(message)
+}
+
+/// Make messages of type `NetworkMessage<T>` printable from code that only knows `T: 'static`.
+pub fn register_message_type<T: Serialize + Clone + 'static>() {
+    let id = TypeId::of::<NetworkMessage<T>>();
+    if PROJECTORS.read().unwrap().contains_key(&id) {
+        return;
+    }
+    PROJECTORS.write().unwrap().insert(id, project_impl::<T>);
+}
+
+/// Project a `NetworkMessage<T>` whose type has been registered.
+pub fn project_any(m: &dyn Any) -> Option<(String, Value)> {
+    let f = PROJECTORS.read().unwrap().get(&m.type_id()).copied();
+    f.and_then(|f| f(m))
+}
+
+/// Emit the `recv` event for a message received at `endpoint` through the receive path `how`.
+pub fn recv_event<In: 'static>(endpoint: ReceiverEndpoint, m: &NetworkMessage<In>, how: &str) {
+    if !enabled() {
+        return;
+    }
+    let (from, els) = project_any(m as &dyn Any)
+        .unwrap_or_else(|| (coord_str(m.sender()), Value::Null));
+    emit(|| json!({"ev": "recv", "at": endpoint_str(endpoint), "from": from, "els": els, "how": how}));
+}
+
+/// Marks the sends done on behalf of a `Batcher` (they must have been enqueued before).
+pub struct BatcherScope(bool);
+
+impl BatcherScope {
+    #[allow(clippy::new_without_default)]
+    pub fn new() -> Self {
+        BatcherScope(IN_BATCHER.with(|b| b.replace(true)))
+    }
+}
+
+impl Drop for BatcherScope {
+    fn drop(&mut self) {
+        IN_BATCHER.with(|b| b.set(self.0));
+    }
+}
+
+/// Whether the calling thread is inside a `Batcher` method.
+pub fn in_batcher() -> bool {
+    IN_BATCHER.with(|b| b.get())
+}
+
+static CLOCK_BASE: Lazy<Instant> = Lazy::new(Instant::now);
+
+/// Set (or clear) the mock clock of the calling thread, as an offset from a fixed base instant.
+pub fn set_mock_clock(offset: Option<Duration>) {
+    Lazy::force(&CLOCK_BASE);
+    MOCK_CLOCK.with(|c| c.set(offset));
+}
+
+/// The wall clock as the window managers see it: `real` unless the thread has a mock clock.
+#[inline]
+pub fn clock(real: Instant) -> Instant {
+    match MOCK_CLOCK.with(|c| c.get()) {
+        Some(offset) => *CLOCK_BASE + offset,
+        None => real,
+    }
+}
